@@ -26,8 +26,9 @@ pub fn profile() -> Profile {
     p.ty.friendly = 1;
     p.groups = (0, 2);
     p.bindings = (1, 2);
-    p.funcs = (0, 4);
-    p.stmts = (0, 3);
+    p.funcs = (0, 6);
+    p.stmts = (0, 4);
+    p.depth = 3;
     p.entries = [(0, 2), (0, 2), (0, 2)];
     p.io_structs = false;
     p.push = 6;
